@@ -1,8 +1,10 @@
 PROPERTY = {
     'id': 'C10',
+    'extra': ['bounded.c11_fresh.run'],
     'contract_modules': ['doctest_example', 'runner', 'util_stream', 'checker', 'doctest_part'],
     'uses': {'xdoctest.doctest_example:DocTest.run': 'C09'},
-    'functions': ['xdoctest.runner:_run_examples',
+    'functions': ['xdoctest.runner:_run_examples', 'xdoctest.doctest_example:DocTest._post_run',
+                  'xdoctest.doctest_example:DocTest._color', 'xdoctest.doctest_example:DocTest._print_captured', 'xdoctest.doctest_example:DocTest.repr_failure',
                   'xdoctest.doctest_example:DocTest.is_disabled',
                   'xdoctest.doctest_example:DocTest.cmdline', 'xdoctest.doctest_example:DocTest.node',
                   'xdoctest.runner:doctest_module#gather', 'xdoctest.runner:doctest_module', 'xdoctest.__main__:main#tail',
@@ -10,7 +12,8 @@ PROPERTY = {
                   'xdoctest.runner:_auto_disable_failing_tests_hook',
                   'xdoctest.utils.util_str:color_text'],
     'clauses': {
-        'P': ['_run_examples: run is called exactly once per gathered example, in order, with on_error="return" (per-iteration '
+        'P': ['_post_run: failed == (exc_info is not None), skipped == (every part skipped), passed == neither: exactly one verdict per summary',
+              '_run_examples: run is called exactly once per gathered example, in order, with on_error="return" (per-iteration '
               'event clause); n_passed + n_failed + n_skipped == number of summaries (== n_total unless a KeyboardInterrupt '
               'stopped the loop); the failed list is exactly the indices whose summary is failed, in order; len(failed) == n_failed',
               'doctest_module (region from `gather_all =`): the list handed to _run_examples is exactly the examples with '
@@ -20,6 +23,7 @@ PROPERTY = {
               'main (region from the doctest_module call): exit status 1 iff n_failed > 0, else 0',
               'cmdline of a native doctest names it by path and callname:num (the text `list` prints is the join of these '
               'over ALL parsed examples: the comprehension has no filter)'],
+        'B': ['the real RuntimeState on a few default dicts x directive sequences: no aliasing of the defaults handed in (a shared state dict would let one doctest\'s directives change the next one\'s verdict and the tallies)'],
         'T': ['DocTest.run: exactly one of passed/failed/skipped per summary and no Exception escapes with on_error="return" '
               '(assumed here until the contract of run is discharged; C02.verdict / C09.noraise)',
               're.match as an uninterpreted predicate per (pattern, flags)',
